@@ -11,8 +11,11 @@ record with round-trip hypotheses in the document theorem.
 
 Every `bytes[o]`, `bytes[a..b]`, `try_into().unwrap()` of the reader is a `rd…` operation on the
 *remaining suffix* of the payload (`o >= bytes.len()` ⇔ suffix empty, `o + k > bytes.len()` ⇔
-suffix shorter than `k`), returning an explicit `Fail` when the Rust code would return `Err`, panic
-or abort.  All constants come from `Gen/Icy.lean` (regenerated from the source on every run). -/
+suffix shorter than `k`), returning an explicit `Fail` when the Rust code would return `Err` or panic.
+The loader checks every length before it indexes (title, 41-byte layer header, announced data length, each
+cell record, in the first chunk and in continuation chunks alike), so on the reader's paths the `panic`
+outcomes of the `rd…` operations are guarded by an `Err` outcome in front of them.
+All constants come from `Gen/Icy.lean` (regenerated from the source on every run). -/
 namespace IcyVerif.IcyDraw
 open IcyVerif.Gen.Icy
 
@@ -24,9 +27,10 @@ inductive Fail where
   | errOob         -- `Err("data length out ouf bounds")`
   | errMode        -- `Err(IcyDrawUnsupportedLayerMode)`
   | errHeader      -- `Err("unsupported header size")`
-  | errCodec       -- `Err` from the palette / font / sauce payload decoder or a key that does not parse
+  | errCodec       -- any other `Err`: `LoadingError::FileTooShort` (title / layer header too short),
+                   -- "invalid character {ch:#x}" (`char::from_u32` = `None`), "continuation chunk … for a layer that
+                   -- was not defined", the palette / font / sauce payload decoder, a key that does not parse
   | panic          -- index / slice out of range, `unwrap` on `None`
-  | abortChar      -- `char::from_u32_unchecked` on a non-scalar value (debug profile: abort)
   | imageLayer     -- role byte 1: sixel image payload, not modelled
   | negSize        -- a size field ≥ 2^31 (negative `i32`), not modelled
   deriving DecidableEq, Repr
@@ -215,17 +219,18 @@ def encodeLayer (l : Layer) : Option (List Bytes) :=
 
 /-! ### reader -/
 
-/-- the payload of one visible cell; `checked` = first chunk (length checks that return `Err`),
-    otherwise continuation chunk (no checks: slices panic) -/
-def readCellBody (checked : Bool) (isShort : Bool) (attr : Nat) (bs : Bytes) : Res (Cell × Bytes) :=
+/-- the payload of one visible cell (the decoders of the first chunk and of a continuation chunk make the
+    same length checks, both returning `Err("data length out ouf bounds")`) -/
+def readCellBody (isShort : Bool) (attr : Nat) (bs : Bytes) : Res (Cell × Bytes) :=
   if isShort then
-    -- `if o + 3 > bytes.len()` — one less than the four bytes that are read
-    if checked && lenLt bs 3 then .fail .errOob else
+    -- `if o + 4 > bytes.len()`
+    if lenLt bs 4 then .fail .errOob else
     match bs with
     | ch :: fg :: bg :: page :: r => .ok (⟨ch, fg, bg, page, attr⟩, r)
     | _ => .fail .panic
   else
-    if checked && lenLt bs 14 then .fail .errOob else
+    -- `if o + 14 > bytes.len()`
+    if lenLt bs 14 then .fail .errOob else
     match rdLE 4 bs with
     | .fail e => .fail e
     | .ok (ch, r1) =>
@@ -241,7 +246,7 @@ def readCellBody (checked : Bool) (isShort : Bool) (attr : Nat) (bs : Bytes) : R
 
 /-- `for x in 0..width`: `some c` = `set_char((x, y), c)`, `none` = `continue`; the list ends early at
     the end-of-row marker -/
-def readRow (checked : Bool) : Nat → Bytes → Res (List (Option Cell) × Bytes)
+def readRow : Nat → Bytes → Res (List (Option Cell) × Bytes)
   | 0, bs => .ok ([], bs)
   | w+1, bs =>
     match bs with
@@ -251,28 +256,29 @@ def readRow (checked : Bool) : Nat → Bytes → Res (List (Option Cell) × Byte
       let isShort := attr &&& attrShortData != 0
       let attr' := if isShort then attr &&& notShort else attr
       if attr' = attrInvisible then
-        match readRow checked w r with
+        match readRow w r with
         | .ok (cs, r') => .ok (none :: cs, r')
         | .fail e => .fail e
       else
-        match readCellBody checked isShort attr' r with
+        match readCellBody isShort attr' r with
         | .fail e => .fail e
         | .ok (c, r1) =>
-          if !isScalar c.ch then .fail .abortChar else
-          match readRow checked w r1 with
+          -- `let Some(ch) = char::from_u32(ch) else { return Err("invalid character …") }`
+          if !isScalar c.ch then .fail .errCodec else
+          match readRow w r1 with
           | .ok (cs, r') => .ok (some c :: cs, r')
           | .fail e => .fail e
-    | _ => if checked then .fail .errOob else .fail .panic
+    | _ => .fail .errOob                                   -- `if o + 2 > bytes.len()`
 
 /-- `for y in …`: stops silently when the payload is used up ("continued in a later chunk") -/
-def readRows (checked : Bool) (w : Nat) : Nat → Bytes → Res (List (List (Option Cell)))
+def readRows (w : Nat) : Nat → Bytes → Res (List (List (Option Cell)))
   | 0, _ => .ok []
   | h+1, bs =>
     if bs.isEmpty then .ok [] else
-    match readRow checked w bs with
+    match readRow w bs with
     | .fail e => .fail e
     | .ok (row, r) =>
-      match readRows checked w h r with
+      match readRows w h r with
       | .ok rows => .ok (row :: rows)
       | .fail e => .fail e
 
@@ -301,11 +307,14 @@ def applyRows (l : Layer) : Nat → List (List (Option Cell)) → Layer
   | _, [] => l
   | y, r :: rs => applyRows (applyRow l y 0 r) (y + 1) rs
 
-/-- `read_utf8_encoded_string` -/
+/-- `read_utf8_encoded_string`: both length checks return `Err(LoadingError::FileTooShort)` -/
 def rdString (bs : Bytes) : Res (Bytes × Bytes) :=
+  if lenLt bs 4 then .fail .errCodec else                  -- `if data.len() < 4`
   match rdLE 4 bs with
   | .fail e => .fail e
-  | .ok (n, r) => rdSlice n r
+  | .ok (n, r) =>
+    if lenLt r n then .fail .errCodec else                 -- `if data.len() - 4 < size`
+    rdSlice n r
 
 def decodeFlags (l : Layer) (flags : Nat) : Layer :=
   { l with
@@ -335,6 +344,9 @@ structure LayerFields where
   deriving Repr
 
 def rdFields (bs : Bytes) : Res (LayerFields × Bytes) := do
+  -- `if bytes.len() < o + 41 { return Err(LoadingError::FileTooShort) }`: role, 4 spare, mode, colour, flags,
+  -- transparency, offset, size, default font page, data length
+  if lenLt bs 41 then Res.fail Fail.errCodec else
   let (role, bs) ← rdU8 bs
   let (mode, bs) ← rdU8 (bs.drop 4)          -- `o += 4; // skip unused`
   if mode > 2 then Res.fail Fail.errMode else
@@ -375,15 +387,15 @@ def decodeLayerMain (bytes : Bytes) : Res Layer :=
   | .fail e => .fail e
   | .ok (f, data) =>
   if f.roleByte = 1 then .fail .imageLayer else
-  if lenLt data f.length then .fail .errLength else
+  if lenLt data f.length then .fail .errLength else          -- `if bytes.len() - o < length`
   if f.width ≥ 2147483648 ∨ f.height ≥ 2147483648 then .fail .negSize else
-  match readRows true f.width f.height data with
+  match readRows f.width f.height data with
   | .fail e => .fail e
   | .ok rows => .ok (decodeFlags (applyRows (freshLayer title f) 0 rows) f.flags)
 
 /-- a `LAYER_n~k` chunk applied to the already loaded layer `n` -/
 def decodeLayerCont (l : Layer) (bytes : Bytes) : Res Layer :=
-  match readRows false l.width (l.height - l.lines.length) bytes with
+  match readRows l.width (l.height - l.lines.length) bytes with
   | .fail e => .fail e
   | .ok rows => .ok (applyRows l l.lines.length rows)
 
@@ -551,7 +563,7 @@ def stepChunk {F S : Type} (cd : Codecs F S) (st : Loaded F S) (k : Key) (b : By
     | .ok l => .ok { st with layers := st.layers ++ [l] }
     | .fail e => .fail e
   | .layerCont n _ => match st.layers[n]? with
-    | none => .fail .panic                                  -- `result.layers[layer_num]`
+    | none => .fail .errCodec                               -- `let Some(layer) = result.layers.get_mut(layer_num) else { return Err(…) }`
     | some l => match decodeLayerCont l b with
       | .ok l' => .ok { st with layers := st.layers.set n l' }
       | .fail e => .fail e
